@@ -1,9 +1,11 @@
 SPECIFICATION Spec
 CONSTANTS
   Reqs <- Reqs3
+  Parts <- P132
+  RegAfter <- RegFirst
   Dups = {3}
+  LookupAtomic = TRUE
   FailIdx = {}
-  RegisterFirst = TRUE
-INVARIANTS NoSpurious MatchOnce NoLoss
+INVARIANTS NoSpurious MatchOnce NoLoss RegisterFirst
 CHECK_DEADLOCK FALSE
 VIEW McView
